@@ -217,7 +217,11 @@ void World::checkPlansStorage(int i, const Op& op, const Obs& before) {
 	} else issuedKnown = false;    // no guard ran and no logger listened: requests that changed nothing left no trace
 	// tasks that disappeared from the (edited) plans
 	bool editsAfterPass = false; for (auto& e : edits) if (firstAfterPass >= 0 && e.ev > firstAfterPass) editsAfterPass = true;
+	// plans edited from inside planSucceeded / planFailed (between the executors of nested and enclosing regions): the snapshot the executors saw is not reconstructed
+	bool editInPlanCallback = false; for (auto& e : h.trace) if (e.k == EV_PLAN_EDIT && (e.method == M_PLAN_SUCCEEDED || e.method == M_PLAN_FAILED)) editInPlanCallback = true;
+	if (editInPlanCallback) probe("plan_edited_inside_plan_callback");
 	for (const Tr& q : planIssued) {
+		if (editInPlanCallback) break;
 		checked("C06.issued_matches_task");
 		probe("plan_task_executed");
 		if (q.origin < 0 || !sh.isRegion(q.origin)) { std::snprintf(b, sizeof b, "%s: request %s(%d) from %d appeared in the queue although nobody issued it", h.role.c_str(), kindName(q.kind), q.dest, q.origin); violate("C06.issued_matches_task", b, i); return; }
@@ -273,6 +277,52 @@ void World::checkPlansStorage(int i, const Op& op, const Obs& before) {
 			if (!direct) { simple = false; break; }
 			if (succ[size_t(k)]) anySucc = true;
 			if (fail[size_t(k)]) anyFail = true;
+		}
+		if (!simple && op.kind == OP_UPDATE && before.queued.empty() && !before.plans[size_t(g)].empty()) {
+			// nested variant: successes self-reported (during preUpdate / update) by active plain states further down, below composite regions only, whose own plans hold
+			// no task: the report travels up through those regions (an empty attached plan answers planSucceeded and passes it on), and every task of g whose
+			// origin reported must be executed in this very step. A lower bound: tasks of region heads that succeeded on the way may be executed too.
+			bool ok = true; std::set<int> marked;
+			for (auto& e : h.trace) {
+				if (e.k == EV_ISSUE || e.k == EV_PLAN_EDIT || e.k == EV_FAIL) ok = false;
+				if (e.k == EV_SUCCEED) { if (e.state < 0 || e.state != e.a || !(e.method == M_UPDATE || e.method == M_PRE_UPDATE)) ok = false; else marked.insert(e.a); }
+			}
+			// marks left over from earlier steps or set by the client: not this situation. Region heads below g succeed on the way up through the default planSucceeded of this step only.
+			for (int k = 0; ok && k < sh.n; ++k) {
+				if (fail[size_t(k)]) ok = false;
+				if (!succ[size_t(k)] || marked.count(k)) continue;
+				bool viaDefault = false; for (auto& e : h.trace) if (e.k == EV_DEFAULT && e.method == M_PLAN_SUCCEEDED && e.state == k) viaDefault = true;
+				if (!(sh.isRegion(k) && k != head && viaDefault)) ok = false;
+			}
+			for (int k : marked) {
+				if (!ok) break;
+				if (sh.isRegion(k) || !before.active[size_t(k)] || !sh.inSubtree(k, head) || k == head) { ok = false; break; }
+				for (int x = sh.st[size_t(k)].parent; x != head && x >= 0; x = sh.st[size_t(x)].parent) {
+					if (!sh.isCompo(x)) { ok = false; break; }
+					const int rx = sh.st[size_t(x)].region;
+					if (rx >= 0 && rx < int(before.plans.size()) && !before.plans[size_t(rx)].empty()) { ok = false; break; }
+				}
+			}
+			if (getenv("VF_DEBUG_MODEL")) fprintf(stderr, "model: nested g=%d head=%d ok=%d marked=%zu firstRound=%zu issuedKnown=%d\n", g, head, int(ok), marked.size(), firstRound.size(), int(issuedKnown));
+			if (ok && !marked.empty() && int(firstRound.size()) < sh.compoCount) {
+				checked("C06.complete_nested");
+				const auto& pl2 = before.plans[size_t(g)];
+				std::vector<Tr> expect2; std::set<int> spent2;
+				for (auto& t : pl2) {
+					if (!before.active[size_t(t.origin)]) break;
+					if (spent2.count(t.origin)) continue;
+					if (t.origin == t.dest && marked.count(t.origin)) spent2.insert(t.origin);
+					if (marked.count(t.origin)) { Tr q; q.origin = head; q.dest = t.dest; q.hasPayload = t.hasPayload; q.payload = t.payload; expect2.push_back(q); }
+				}
+				// evidence: an executed task is removed from the plan (nothing else edits plans in this step)
+				const size_t left = s.obs.plans[size_t(g)].size();
+				const size_t j = pl2.size() >= left ? std::min(expect2.size(), pl2.size() - left) : 0;
+				if (j != expect2.size()) {
+					std::snprintf(b, sizeof b, "%s: region %d: %zu task(s) whose origin (a state below a nested region with an empty plan) reported success in this step were due, %zu of them were executed", h.role.c_str(), head, expect2.size(), j);
+					violate("C06.complete_nested", b, i); return;
+				}
+				if (!expect2.empty()) probe("nested_origin_task_executed");
+			}
 		}
 		if (!simple || (!anySucc && !anyFail)) continue;
 		// no transition requested by anybody in the passes (outer-transition suppression is not modelled), no edits in the passes
